@@ -46,6 +46,32 @@ fn check_state<K: Kernel<D, Scalar = f64>, const D: usize>(rep: &Report, cn: &Cn
         ("is_delaunay_via_flips", guarded(|| dt.is_delaunay_via_flips().is_ok())),
         ("find_delaunay_violations(empty)", guarded(|| find_delaunay_violations(dt.tds(), None).map(|v| v.is_empty()).unwrap_or(false))),
     ];
+    // the finder restricted to a list of cell keys must report exactly the listed live cells that the unrestricted
+    // finder reports, wherever stale / foreign keys sit in the list (documented: missing cells are skipped)
+    {
+        let live: Vec<delaunay::core::triangulation_data_structure::CellKey> = dt.cells().map(|(k, _)| k).collect();
+        let stale = vcore::model::foreign_cell_key();
+        let all = guarded(|| find_delaunay_violations(dt.tds(), None).map(|v| { let mut v: Vec<u64> = v.iter().map(|k| vcore::snap::kffi(*k)).collect(); v.sort_unstable(); v }).map_err(|e| format!("{e:?}")));
+        let mut lists: Vec<(&str, Vec<_>)> = Vec::new();
+        lists.push(("live", live.clone()));
+        lists.push(("stale_first", std::iter::once(stale).chain(live.iter().copied()).collect()));
+        lists.push(("stale_last", live.iter().copied().chain(std::iter::once(stale)).collect()));
+        let mut mid = live.clone();
+        mid.insert(live.len() / 2, stale);
+        lists.push(("stale_middle", mid));
+        lists.push(("reversed", live.iter().rev().copied().collect()));
+        for (name, list) in lists {
+            let got = guarded(|| find_delaunay_violations(dt.tds(), Some(&list)).map(|v| { let mut v: Vec<u64> = v.iter().map(|k| vcore::snap::kffi(*k)).collect(); v.sort_unstable(); v.dedup(); v }).map_err(|e| format!("{e:?}")));
+            cn.verdicts.fetch_add(1, Ordering::Relaxed);
+            if got != all {
+                rep.violation(Finding {
+                    signature: json!({"check": "finder_list_inconsistent", "list": name, "D": D}),
+                    description: format!("find_delaunay_violations over the key list '{name}' (all live cells{}) reports {got:?}, over the whole triangulation {all:?}", if name.starts_with("stale") { " plus one foreign key" } else { "" }),
+                    replay: replay(),
+                });
+            }
+        }
+    }
     for (api, r) in apis {
         cn.verdicts.fetch_add(1, Ordering::Relaxed);
         match r {
